@@ -124,6 +124,8 @@ fn dev_json(k: &str, time: u32, en: bool, lo: u32, hi: u32, vect: u8, prio: u8, 
            "vect": vect, "prio": prio, "slot": slot})
 }
 
+/// Countdowns are logged up to this value (TLC integers are 32-bit; an open-ended timer range draws up to 2^32 - 1).
+pub const TIME_CAP: u32 = 1_000_000_000;
 /// Fill values of MachineProps!FillTab.
 pub const FILL_TAB: [u16; 4] = [4369, 8738, 0, 65535];
 
@@ -238,7 +240,7 @@ impl M {
             Err(()) => self.panic(out, "reset"),
             Ok(()) => {
                 let same = Arc::ptr_eq(&mcr_before, self.sim.mcr());
-                let draws: Vec<u32> = self.timers.iter().map(|t| t.read().unwrap().get_remaining()).collect();
+                let draws: Vec<u32> = self.timers.iter().map(|t| t.read().unwrap().get_remaining().min(TIME_CAP)).collect();
                 let nbp2 = self.sim.breakpoints.len();
                 self.host(out, json!({"op": "reset", "mcr_same": same as u8, "draws": draws, "bp_before": nbp, "bp_after": nbp2}))
             }
@@ -377,7 +379,7 @@ impl M {
             "prefetch": self.sim.verif_prefetch() as u8,
             "fno": fno, "dbgf": self.sim.frame_stack.frames().is_some() as u8, "frames": self.frames(),
             "icount": icount, "obs": obs, "kbd": kbd, "kbdie": kbdie, "disp": disp,
-            "timers": self.timers.iter().map(|t| t.read().unwrap().get_remaining()).collect::<Vec<_>>(),
+            "timers": self.timers.iter().map(|t| t.read().unwrap().get_remaining().min(TIME_CAP)).collect::<Vec<_>>(),
             "timer_en": self.timers.iter().map(|t| t.read().unwrap().enabled as u8).collect::<Vec<_>>(),
             "memdiff": memdiff,
             "regvals": self.regdevs.iter().map(|r| *r.lock().unwrap()).collect::<Vec<_>>(),
@@ -435,7 +437,7 @@ impl M {
     pub fn env_json(&self, lock_k: bool, lock_d: bool) -> Value {
         json!({"lockK": lock_k as u8, "lockD": lock_d as u8,
                "ints": self.intfns.iter().map(|c| { let c = c.lock().unwrap().cmd; json!({"k": c.k, "vect": c.vect, "prio": c.prio}) }).collect::<Vec<_>>(),
-               "draws": self.timers.iter().map(|t| t.read().unwrap().get_remaining()).collect::<Vec<_>>()})
+               "draws": self.timers.iter().map(|t| t.read().unwrap().get_remaining().min(TIME_CAP)).collect::<Vec<_>>()})
     }
     pub fn ctx_json(c: &MemAccessCtx) -> Value {
         json!({"priv": c.privileged as u8, "strict": c.strict as u8, "fx": c.io_effects as u8, "track": c.track_access as u8})
@@ -543,6 +545,21 @@ impl M {
         self.host(out, json!({"op": "adddev", "dev": d, "ports": [], "res": res.map(|x| x as i64).unwrap_or(-1), "drawn": time}));
         slot
     }
+    /// Gives timer `slot` an open-ended range after construction (`lo..`, `..`, `lo..=u32::MAX`): the next redraw
+    /// samples up to the largest u32.  Logged as a reconfiguration with the upper bound capped at TIME_CAP.
+    pub fn timer_open_range(&mut self, out: &mut Out, slot: usize, variant: u8, lo: u32, vect: u8, prio: u8) {
+        let (time, en) = {
+            let mut g = self.timers[slot - 1].write().unwrap();
+            match variant { 0 => { g.set_range(lo..); } 1 => { g.set_range(..); } _ => { g.set_range(lo..=u32::MAX); } }
+            (g.get_remaining().min(TIME_CAP), g.enabled)
+        };
+        let lo = if variant == 1 { 0 } else { lo };
+        self.timer_cfg[slot - 1] = (lo, TIME_CAP);
+        let id = self.devs.iter().position(|d| d["k"] == "timer" && d["slot"] == slot).expect("timer device");
+        let d = dev_json("timer", time, en, lo, TIME_CAP, vect, prio, slot, 0);
+        self.devs[id] = d.clone();
+        self.host(out, json!({"op": "timercfg", "id": id, "dev": d}));
+    }
     pub fn srdef(&mut self, out: &mut Out, addr: u16, cc: Option<usize>, regs: &[u8]) {
         let pl = match cc {
             Some(n) => ParameterList::with_calling_convention(&vec!["p"; n]),
@@ -611,6 +628,9 @@ impl M {
             "over" => self.sim.step_over(),
             "out" => self.sim.step_out(),
             "pcne" => { let a = arg as u16; self.sim.run_while(move |s| s.pc != a) }
+            // a tripwire that edits the simulator it is handed: a PC breakpoint inserted after n instructions
+            "bpat" => { let (n, a) = (arg >> 16, arg as u16); let i0 = self.sim.instructions_run;
+                        self.sim.run_while(move |s| { if s.instructions_run.wrapping_sub(i0) >= n { s.breakpoints.insert(lc3_ensemble::sim::debug::Breakpoint::PC(a)); } true }) }
             _ => panic!("unknown run kind"),
         });
         let (polls, cmds): (u32, std::collections::HashMap<u32, IntCmd>) = {
